@@ -1,4 +1,5 @@
 use crate::{
+    expressions::utils::{is_valid_column_number, is_valid_row},
     constants::{LAST_COLUMN, LAST_ROW},
     expressions::types::Area,
 };
@@ -353,6 +354,18 @@ impl<'a> UserModel<'a> {
         let first_column = range.column;
         let last_row = first_row + range.height - 1;
         let last_column = first_column + range.width - 1;
+        // Validate the area before touching any cell, so that an area that runs off the grid
+        // does not leave a partial edit behind
+        self.model.workbook.worksheet(sheet)?;
+        if range.width > 0
+            && range.height > 0
+            && !(is_valid_row(first_row)
+                && is_valid_row(last_row)
+                && is_valid_column_number(first_column)
+                && is_valid_column_number(last_column))
+        {
+            return Err("Incorrect row or column".to_string());
+        }
         if first_row == 1 && last_row == LAST_ROW {
             // full columns
             self.set_columns_with_border(sheet, first_column, last_column, border_area)?;
